@@ -1,17 +1,17 @@
 import SaphyrModel.Proofs.Rel.GenScan1
-/-! The three places where the scanner's own code branches on the state of the look-ahead buffer
+import SaphyrModel.Proofs.Rel.Chunks
+import SaphyrModel.Proofs.Rel.Line
+/-! The places where the scanner's own code branches on the state of the look-ahead buffer
 (`buf_is_empty`, `bufmaxlen`): they compute the same thing along different paths on the two
 back-ends. Their agreement is stated here as a class so that the lifting through the rest of the
-scanner can be done first; `Rel/Bespoke.lean` is where instances are proved. -/
+scanner can be done first; two of the three such places are proved: the chunked word loop of `scan_plain_scalar` in `Rel/Chunks.lean`
+(`plainChunks_rel`) and `scan_block_scalar_content_line` in `Rel/Line.lean` (`line_rel`). What remains as a
+hypothesis is `skip_block_scalar_indent`. -/
 namespace SaphyrModel.C10
 open SaphyrModel SaphyrModel.Sc
 
 class Bespoke : Prop where
-  /-- `scan_block_scalar_content_line`: buffered characters first, then raw reads behind the buffer -/
-  line : ∀ str, RelS (scanBlockScalarContentLine str) (scanBlockScalarContentLine str)
   /-- `skip_block_scalar_indent`: one look-ahead of `bufmaxlen` when the indentation fits, chunks otherwise -/
   indent : ∀ ind f1 f2 b, RelS (skipBlockScalarIndent ind f1 b) (skipBlockScalarIndent ind f2 b)
-  /-- the word loop of `scan_plain_scalar`: chunks of `bufmaxlen - 1` characters per look-ahead request -/
-  chunks : ∀ f1 f2 str, RelS (plainChunks f1 str) (plainChunks f2 str)
 
 end SaphyrModel.C10
